@@ -42,21 +42,37 @@ pub open spec fn clone_is_copy<E: Clone>() -> bool { forall|a: E, b: E| #[trigge
 // what identifies a transfer according to C12, and what the key stores
 pub open spec fn transfer_id<E>(q: CoapRequest<E>) -> (RequestType, Seq<Seq<char>>, Option<E>) { (method_of(q.message.header.code), path_segs(q.message), q.source) }
 pub open spec fn key_fields<E: Ord + Clone>(k: RequestCacheKey<E>) -> (u8, Seq<Seq<char>>, Option<E>) { (k.request_type_ord, strs(k.path), k.requester) }
+// the method component of the key: the method's code byte (every unnamed code as one "unknown" method), or the request's own
+// code byte (unnamed codes kept apart) - either separates different methods, which is all C12 asks
+pub open spec fn method_key_ok(c: MessageClass, b: u8) -> bool {
+    b == u8_of_class(MessageClass::Request(method_of(c))) || b == u8_of_class(c)
+}
 pub open spec fn key_for<E: Ord + Clone>(q: CoapRequest<E>, k: RequestCacheKey<E>) -> bool {
-    key_fields(k) == (u8_of_class(MessageClass::Request(method_of(q.message.header.code))), path_segs(q.message), q.source)
+    method_key_ok(q.message.header.code, k.request_type_ord) && strs(k.path) == path_segs(q.message) && k.requester == q.source
 }
 // the code byte is one-to-one on methods (UnKnown included: 0xFF)
 proof fn lemma_method_byte_injective(a: RequestType, b: RequestType)
     ensures u8_of_class(MessageClass::Request(a)) == u8_of_class(MessageClass::Request(b)) ==> a == b
 {}
-// C12: requests that differ in endpoint, method or path (segment list) have keys that differ in a field;
-// requests that agree in all three have field-wise equal keys
+// the code byte of a class value that came from a byte (every header code does)
+pub open spec fn class_wf(c: MessageClass) -> bool { class_of_u8(u8_of_class(c)) == c }
+// C12: requests that differ in endpoint, method or path (segment list) have keys that differ in a field
+// (requests with field-wise equal keys agree in all three)
 proof fn lemma_keys_differ<E: Ord + Clone>(q1: CoapRequest<E>, k1: RequestCacheKey<E>, q2: CoapRequest<E>, k2: RequestCacheKey<E>)
-    requires key_for(q1, k1), key_for(q2, k2)
-    ensures (transfer_id(q1) == transfer_id(q2)) <==> (key_fields(k1) == key_fields(k2))
+    requires key_for(q1, k1), key_for(q2, k2), class_wf(q1.message.header.code), class_wf(q2.message.header.code)
+    ensures (key_fields(k1) == key_fields(k2)) ==> (transfer_id(q1) == transfer_id(q2))
 {
     lemma_method_byte_injective(method_of(q1.message.header.code), method_of(q2.message.header.code));
+    lemma_method_byte(q1.message.header.code); lemma_method_byte(q2.message.header.code);
 }
+// the byte of a code determines its method
+proof fn lemma_method_byte(c: MessageClass)
+    requires class_wf(c)
+    ensures method_of(class_of_u8(u8_of_class(c))) == method_of(c),
+        (1 <= u8_of_class(c) <= 7) <==> (method_of(c) != RequestType::UnKnown),
+        method_of(c) != RequestType::UnKnown ==> u8_of_class(MessageClass::Request(method_of(c))) == u8_of_class(c),
+        method_of(c) == RequestType::UnKnown ==> u8_of_class(MessageClass::Request(method_of(c))) == 0xFF
+{}
 // segmentation matters: ["a","b"] and ["a/b"] are different segment lists (different lengths)
 proof fn lemma_segmentation_distinguished(s1: Seq<Seq<char>>, s2: Seq<Seq<char>>)
     requires s1.len() != s2.len()
@@ -104,7 +120,7 @@ def build(repo):
             clone_is_copy::<Endpoint>() && path_valid(request.message) ==> key_for(*request, r),
             // a path that is not text at all is outside C12's quantifier (today it is keyed like the empty
             // path - recorded in DESIGN.md); method and endpoint still have to be in the key
-            clone_is_copy::<Endpoint>() ==> r.request_type_ord == u8_of_class(MessageClass::Request(method_of(request.message.header.code)))
+            clone_is_copy::<Endpoint>() ==> method_key_ok(request.message.header.code, r.request_type_ord)
                 && r.requester == request.source''', props=PROPS)
     u.probe('lemma_keys_differ')
     u.probe('lemma_method_byte_injective')
